@@ -44,9 +44,15 @@ impl EventGen for ReuseElement {
         instance_element.eval_attributes(context).inspect_err(|_| {
             context.pop_element();
         })?;
-        let instance_size = instance_element.size(context).inspect_err(|_| {
-            context.pop_element();
-        })?;
+        // (If the target is itself a `<reuse>`, its size is that of *its* target evaluated
+        // with its bindings, which aren't in scope here; it positions its own instance.)
+        let instance_size = if instance_element.name == "reuse" {
+            None
+        } else {
+            instance_element.size(context).inspect_err(|_| {
+                context.pop_element();
+            })?
+        };
 
         // Override 'default' attr values in the target
         for (attr, value) in reuse_element.get_attrs() {
